@@ -112,3 +112,14 @@ from vlib.props_C05 import ENTRY as _E05w
 ENTRY["streams"] = ENTRY["streams"] + [dict(_E05w["streams"][0], seeds_quick=1)]
 ENTRY["monitor_sigs"] = ENTRY["monitor_sigs"] + ["qbftwire:value_hash_mismatch_accepted", "qbftwire:tampered_accepted",
                                                  "qbftwire:unsigned_justification_accepted", "qbftwire:cross_duty_accepted"]
+
+# the production wiring (app/app.go Run / wireCoreWorkflow, consensus.NewConsensusController, cluster.Definition.NodeIdx):
+# translator T-appwire regenerates the facts the model and the drivers assume about how the shipped binary assembles the
+# workflow (thresholds, verifiers, gater, single instances into core.Wire, share-index arithmetic, deadliners); Props/C01Wire.lean
+from vlib import snippet_C01wire as _cw
+ENTRY.setdefault("go_tools", []).append(_cw.GO_TOOL)
+ENTRY.setdefault("translators", []).append(_cw.TRANSLATOR)
+ENTRY.setdefault("lean_props_extra", []).append(_cw.EXTRA_LEAN)
+ENTRY["trusted_base"] = ENTRY["trusted_base"] + _cw.TRUSTED_BASE
+ENTRY["assumptions"] = ENTRY["assumptions"] + _cw.ASSUMPTIONS
+ENTRY["level_text"] = ENTRY["level_text"] + " " + _cw.LEVEL_TEXT
